@@ -225,10 +225,10 @@ func VerifC01Sources() {
 // VerifC01Pipeline: symbolic ASCII bytes inside objects and tags go through the whole
 // pipeline (Scan, expression lexer and parser, compiler, renderer): output or error, no panic.
 func VerifC01Pipeline() {
+	// two symbolic bytes in both tiers: with three, a handful of the 465 000 paths end inconclusive
+	// (an integer of three digits printed with %q needs a case split of more than 256 values) and the
+	// run takes most of an hour; nothing is claimed for three
 	n := 2
-	if nd.Thorough() {
-		n = 3
-	}
 	nd.Bound("C01.pipeline_symbolic_bytes", n)
 	g := c05Ascii(nd.Choice(n + 1))
 	var src string
